@@ -94,16 +94,29 @@ func c14(c *an.Ctx) {
 			if !an.IsFieldAccess(call.Args[2], "Fragment", "SelectionSet") {
 				continue
 			}
-			fromMap := false
+			// ... with the function's own type (the *Object it was called with): union members are
+			// looked up or ranged over in the union's type table and matched by type condition
+			ownType := true
 			for _, leaf := range phiLeaves(an.StripConv(call.Args[1])) {
-				if ex, ok := leaf.(*ssa.Extract); ok {
-					if _, isNext := ex.Tuple.(*ssa.Next); isNext {
-						fromMap = true
+				v := leaf
+				if mi, ok := v.(*ssa.MakeInterface); ok {
+					v = mi.X
+				}
+				if ex, ok := v.(*ssa.Extract); ok {
+					if ta, ok := ex.Tuple.(*ssa.TypeAssert); ok && ta.X == ssa.Value(fn.Params[1]) {
+						continue
 					}
 				}
+				if ta, ok := v.(*ssa.TypeAssert); ok && ta.X == ssa.Value(fn.Params[1]) {
+					continue
+				}
+				if v == ssa.Value(fn.Params[1]) {
+					continue
+				}
+				ownType = false
 			}
-			if fromMap {
-				continue // union members: fragments are matched to member types
+			if !ownType {
+				continue
 			}
 			h := an.LoopHeaderOf(rc)
 			if h == nil {
